@@ -35,10 +35,38 @@ def main(argv=None) -> int:
     except MachineryError as e:
         print(f"MACHINERY-FAILURE property={prop}: {e}", file=sys.stderr)
         return 2
-    except Exception:
+    except Exception as e:  # noqa: BLE001
+        text = "".join(traceback.format_exception(e))          # includes the remote traceback of a worker process (its __cause__)
         traceback.print_exc()
+        # a worker process hands its traceback over as text in __cause__: that one ends where the exception was raised
+        cause = getattr(e, "__cause__", None)
+        where = innermost_file(str(cause)) if cause is not None and "Traceback" in str(cause) else innermost_file("".join(traceback.format_tb(e.__traceback__)))
+        from . import common
+        if where and where.startswith(str(common.REPO) + os.sep) and not args.replay:
+            # the code under test raised while a driver was using it the way the drivers use the unchanged tree (which does not raise):
+            # the behaviour the property describes did not take place.  A verdict, not a failure of the machinery.
+            return unexpected_raise(prop, args.tier, e, text, where)
         print(f"MACHINERY-FAILURE property={prop}: unexpected exception in the harness", file=sys.stderr)
         return 2
+
+
+def innermost_file(text: str):
+    """The deepest frame that belongs either to the code under test or to the harness (frames of libraries below them do not count)."""
+    import re
+    from . import common
+    files = [f for f in re.findall(r'File "([^"]+)", line \d+', text) if f.startswith(str(common.REPO) + os.sep) or f.startswith(str(common.VERIF) + os.sep)]
+    return files[-1] if files else None
+
+
+def unexpected_raise(prop, tier, exc, text, where) -> int:
+    from .common import Report
+    rep = Report(prop, tier)
+    rep.assumptions = ["the drivers use the code under test only in ways the unchanged tree accepts without raising"]
+    rep.rule = "a driver of this check was stopped by an exception raised inside the code under test"
+    last = [ln for ln in text.strip().splitlines() if ln.strip()][-1][:300]
+    rep.violation(f"{prop}.UnexpectedRaise", {"exception": last, "raised_in": where, "traceback_tail": text[-1500:]},
+                  replay={"kind": "unexpected-raise", "traceback": text[-4000:]}, sig={"clause": f"{prop}.UnexpectedRaise", "where": os.path.basename(where)})
+    return rep.finish()
 
 
 if __name__ == "__main__":
